@@ -593,13 +593,159 @@ pub fn check(ctx: &mut Ctx) {
 	ctx.run_cases_parallel(&Connections, cyc, 16);
 	ctx.run_sub(&Connections);
 	ctx.run_sub(&GiveUp);
+	ctx.run_sub(&OverTcp);
+	ctx.extra.insert("tcp_inconclusive_cases".into(), json!(TCP_INCONCLUSIVE.load(std::sync::atomic::Ordering::SeqCst)));
 }
 
 pub fn replay(file: &serde_json::Value) -> Option<i32> {
-	replay_with(&Connections, file, "C11").or_else(|| replay_with(&GiveUp, file, "C11"))
+	replay_with(&Connections, file, "C11").or_else(|| replay_with(&GiveUp, file, "C11")).or_else(|| replay_with(&OverTcp, file, "C11"))
 }
 
 #[allow(dead_code)]
 fn _j() -> Value {
 	json!(null)
+}
+
+// ---------------------------------------------------------------------------------------------
+// S-tcp: `Server::start` on loopback (the accept loop and hyper's own connection handling), real clock
+// ---------------------------------------------------------------------------------------------
+
+#[derive(Clone, Debug, Serialize, Deserialize)]
+pub struct TcpConnCase {
+	pub limit: u8,
+	/// how each of the `limit` occupying peers leaves while its call is still executing:
+	/// 0 = HTTP, socket closed; 1 = HTTP, write half shut down then closed; 2 = WebSocket, socket dropped
+	pub leave: Vec<u8>,
+	pub rounds: u8,
+}
+
+pub struct OverTcp;
+
+pub static TCP_INCONCLUSIVE: std::sync::atomic::AtomicU64 = std::sync::atomic::AtomicU64::new(0);
+
+async fn http_status(addr: std::net::SocketAddr, body: &str, wall: std::time::Duration) -> Result<u16, String> {
+	let mut s = tokio::net::TcpStream::connect(addr).await.map_err(|e| format!("INCONCLUSIVE connect {e}"))?;
+	let req = format!("POST / HTTP/1.1\r\nHost: localhost\r\nContent-Type: application/json\r\nConnection: close\r\nContent-Length: {}\r\n\r\n{body}", body.len());
+	s.write_all(req.as_bytes()).await.map_err(|e| format!("INCONCLUSIVE write {e}"))?;
+	let mut buf = vec![];
+	tokio::time::timeout(wall, s.read_to_end(&mut buf)).await.map_err(|_| "INCONCLUSIVE no HTTP response within the wall budget".to_string())?.ok();
+	let text = String::from_utf8_lossy(&buf).to_string();
+	text.split_whitespace().nth(1).and_then(|x| x.parse().ok()).ok_or_else(|| format!("INCONCLUSIVE unreadable response {text:?}"))
+}
+
+async fn run_over_tcp(case: &TcpConnCase, obs: &mut Obs) -> Result<(), String> {
+	use tokio::net::TcpStream;
+	let wall = std::time::Duration::from_secs(20);
+	let ctx = std::sync::Arc::new(HCtx { log: Default::default(), gates: Gates::default(), actors: Default::default(), guard_seen: Default::default(), sub_ids: Default::default() });
+	let module = build_module(ctx.clone());
+	let limit = case.limit.clamp(1, 3) as usize;
+	let cfg = Cfg { max_connections: limit as u32, ..Cfg::default() };
+	let server = jsonrpsee_server::Server::builder().set_config(server_config(&cfg, false)).build("127.0.0.1:0").await.map_err(|e| format!("INCONCLUSIVE bind: {e}"))?;
+	let addr = server.local_addr().map_err(|e| format!("INCONCLUSIVE addr: {e}"))?;
+	let handle = server.start(module);
+	let probe = r#"{"jsonrpc":"2.0","id":1,"method":"echo_sync","params":[1]}"#;
+	let mut n = 0u32;
+	for round in 0..case.rounds.clamp(1, 3) {
+		// fill every slot with a peer whose call does not return
+		let mut http: Vec<(TcpStream, u8)> = vec![];
+		let mut ws: Vec<WsPeer> = vec![];
+		for k in 0..limit {
+			n += 1;
+			let token = format!("tcp{n}");
+			let call = format!(r#"{{"jsonrpc":"2.0","id":1,"method":"gated_async","params":["{token}"]}}"#);
+			let how = case.leave.get(k).copied().unwrap_or(0) % 3;
+			let mut s = TcpStream::connect(addr).await.map_err(|e| format!("INCONCLUSIVE connect {e}"))?;
+			if how == 2 {
+				let mut p = WsPeer::connect(s, tokio::spawn(async {})).await.map_err(|e| format!("INCONCLUSIVE handshake {e}"))?;
+				p.send_text(&call).await.map_err(|e| format!("INCONCLUSIVE send {e}"))?;
+				ws.push(p);
+			} else {
+				let req = format!("POST / HTTP/1.1\r\nHost: localhost\r\nContent-Type: application/json\r\nContent-Length: {}\r\n\r\n{call}", call.len());
+				s.write_all(req.as_bytes()).await.map_err(|e| format!("INCONCLUSIVE write {e}"))?;
+				http.push((s, how));
+			}
+			// the handler has started (bounded wait)
+			let t0 = std::time::Instant::now();
+			while !ctx.log.lock().iter().any(|l| l.phase == "started" && l.params.as_deref().is_some_and(|p| p.contains(&token))) {
+				if t0.elapsed() > wall {
+					return Err("INCONCLUSIVE handler did not start within the wall budget".into());
+				}
+				tokio::time::sleep(std::time::Duration::from_millis(2)).await;
+			}
+		}
+		// every slot is taken: one more is refused, and its handler does not run
+		let log0 = ctx.log_len();
+		let st = http_status(addr, probe, wall).await?;
+		if st != 429 || ctx.log_len() != log0 {
+			obs.fail("c11/server-attempt-beyond-limit-served", format!("round {round}: {limit} calls executing on {limit} slots, one more request got status {st}; case={case:?}"));
+			break;
+		}
+		// the peers go away while their calls are still executing
+		for (mut s, how) in http {
+			if how == 1 {
+				let _ = s.shutdown().await;
+				tokio::time::sleep(std::time::Duration::from_millis(5)).await;
+			}
+			drop(s);
+		}
+		for mut p in ws {
+			p.abort();
+		}
+		// a finished connection frees its slot: asked again and again, the server serves `limit` requests at once soon
+		// (loopback, an idle server: ten seconds of refusals after every peer has gone is not a matter of scheduling)
+		let t0 = std::time::Instant::now();
+		let mut served = false;
+		let mut polls = 0;
+		while t0.elapsed() < std::time::Duration::from_secs(10) {
+			polls += 1;
+			if http_status(addr, probe, wall).await? == 200 {
+				served = true;
+				break;
+			}
+			tokio::time::sleep(std::time::Duration::from_millis(50)).await;
+		}
+		if !served {
+			if polls < 20 {
+				return Err("INCONCLUSIVE fewer than 20 polls fitted into ten seconds".into());
+			}
+			obs.fail("c11/server-slot-leaked", format!("round {round}: all {limit} peers closed their connections while their calls were executing; ten seconds and {polls} requests later the server still answers 429; case={case:?}"));
+			break;
+		}
+		obs.nontrivial();
+	}
+	ctx.gates.release_all();
+	let _ = handle.stop();
+	let _ = tokio::time::timeout(std::time::Duration::from_secs(5), handle.stopped()).await;
+	Ok(())
+}
+
+impl SubCheck for OverTcp {
+	type Case = TcpConnCase;
+	fn name(&self) -> &'static str {
+		"connections-over-tcp"
+	}
+	fn cases(&self, tier: Tier) -> u32 {
+		tier.pick(200, 4_000)
+	}
+	fn shards(&self, _tier: Tier) -> u32 {
+		8
+	}
+	fn strategy(&self, _tier: Tier) -> BoxedStrategy<TcpConnCase> {
+		(1u8..4, proptest::collection::vec(0u8..3, 3), 1u8..3).prop_map(|(limit, leave, rounds)| TcpConnCase { limit, leave, rounds }).boxed()
+	}
+	fn run(&self, case: &TcpConnCase, obs: &mut Obs) {
+		let rt = tokio::runtime::Builder::new_multi_thread().worker_threads(2).enable_all().build().unwrap();
+		let r = rt.block_on(run_over_tcp(case, obs));
+		rt.shutdown_timeout(std::time::Duration::from_millis(200));
+		match r {
+			Ok(()) => obs.class("completed"),
+			Err(e) => {
+				obs.class("inconclusive");
+				TCP_INCONCLUSIVE.fetch_add(1, std::sync::atomic::Ordering::SeqCst);
+				if std::env::var("VERIF_VERBOSE").is_ok() {
+					eprintln!("[C11/tcp] {e}");
+				}
+			}
+		}
+	}
 }
